@@ -238,6 +238,32 @@ def case_gmd(ctx, rng, idx):
     gm = float(np.exp(np.mean(np.log(S[:p]))))
     ctx.within("gmd", float(np.max(np.abs(np.diagonal(R)[:p] - gm))), tol * gm * 16,
                "constant-diagonal", d)
+    # the tolerance form: singular values below `tol` are left out of the
+    # geometric mean; the decomposition then reproduces A up to those values
+    if p >= 2 and idx % 2 == 0:
+        keep = int(rng.integers(1, p))
+        s0 = 10.0 ** rng.uniform(-1, 1)
+        sv = np.concatenate([s0 * np.sort(10.0 ** rng.uniform(-2, 0, keep))[::-1],
+                             s0 * 1e-9 * np.sort(rng.uniform(0.1, 1, p - keep))[::-1]])
+        A2 = num.matrix_with_svals(rng, m, n, sv, real)
+        U2, S2, V2 = np.linalg.svd(A2)
+        tl = s0 * 1e-6
+        d2 = lambda: {"A": A2, "svals": S2, "tol": tl, "kept": keep, "shape": (m, n)}
+        ok, res2 = ctx.call("gmd", MISC.gmd, U2, S2, V2, tl, cls="tol-form-raised", detail=d2)
+        if ok:
+            Q2, R2, P2 = res2
+            k2 = float(S2[0] / S2[keep - 1])
+            t2 = 256 * EPS * max(m, n) * k2
+            disc = float(np.linalg.norm(S2[keep:]))
+            ctx.within("gmd", fro(Q2 @ R2 @ herm(P2) - A2), t2 * fro(A2) + 4 * disc,
+                       "tol-form:reconstructs-kept-part", d2)
+            ctx.within("gmd", fro(herm(Q2) @ Q2 - np.eye(Q2.shape[1])), t2,
+                       "tol-form:Q-orthonormal", d2)
+            ctx.within("gmd", fro(herm(P2) @ P2 - np.eye(P2.shape[1])), t2,
+                       "tol-form:P-orthonormal", d2)
+            gm2 = float(np.exp(np.mean(np.log(S2[:keep]))))
+            ctx.within("gmd", float(np.max(np.abs(np.diagonal(R2)[:keep] - gm2))), t2 * gm2 * 16,
+                       "tol-form:constant-diagonal-of-kept-values", d2)
     if max(m, n) > 1:
         ctx.sig("gmd", m, n, real, kind, int(math.log10(kappa)))
     ctx.sample("gmd", {"shape": [m, n], "kappa": kappa, "diag": np.diagonal(R)[:p]})
